@@ -33,14 +33,14 @@ func PointIndexOK(point string) bool { panic("ghost") }
 //@ ensures[res-or-err] err == nil ==> res != nil @props C09 C07
 //@ ensures[err-no-data] err != nil ==> res == nil @props C09
 //@ ensures[err-nonempty] err != nil ==> !is(err, gqlerror.List) && (is(err, gqlerrors.ErrorList) ==> len(err.(gqlerrors.ErrorList)) >= 1) @props C09
-//@ modifies fresh, entries(map[string]interface{}), elems(interface{}), elems(map[string]interface{}), global(queryer.QueryCalls)
+//@ modifies fresh, entries(map[string]interface{}), elems(interface{}), elems(map[string]interface{}), global(queryer.QueryCalls), global(queryer.LastStatus), all(queryer.MultiOpQueryer.client)
 //@ end
 
 //@ func (ParallelExecutor).Execute
 //@ props C09
 //@ requires ctx != nil && ctx.QueryPlan != nil && ctx.Request != nil
 //@ requires forallT(u, string, has(ctx.Queryers, u) ==> ctx.Queryers[u] != nil)
-//@ modifies-assumed fresh, entries(map[string]interface{}), elems(interface{}), elems(map[string]interface{}), global(queryer.QueryCalls)
+//@ modifies-assumed fresh, entries(map[string]interface{}), elems(interface{}), elems(map[string]interface{}), global(queryer.QueryCalls), global(queryer.LastStatus), all(queryer.MultiOpQueryer.client)
 //@ end
 
 //@ nonnil-elems *ExecutionRequest
@@ -95,6 +95,7 @@ func PointIndexOK(point string) bool { panic("ghost") }
 //@ func (*DepthExecutor).getVariables
 //@ props C12 C09
 //@ returns vars, err
+//@ ensures[errkind] gqlerrors.nonvacuous(err)
 //@ requires de != nil && de.ctx != nil && de.ctx.Request != nil && req != nil && de.PointDataExtractor != nil
 //@ ensures[fresh] err == nil ==> vars != nil && fresh(vars)
 //@ modifies fresh, entries(map[string]*PointData)
@@ -139,8 +140,9 @@ func PointIndexOK(point string) bool { panic("ghost") }
 //@ ensures[one-call] queryer.QueryCalls <= old(queryer.QueryCalls) + 1 @props C12
 //@ ensures[no-call-on-empty] len(ers) == 0 ==> queryer.QueryCalls == old(queryer.QueryCalls) @props C12
 //@ ensures[empty] len(ers) == 0 ==> qResps == nil @props C12
+//@ ensures[errkind] gqlerrors.nonvacuous(err) @props C09
 //@ ensures[fan-out] err == nil && len(ers) > 0 ==> len(qResps) == len(ers) && forall(j, 0, len(ers), filled(qResps, ers, j)) @props C12
-//@ modifies fresh, entries(map[string]interface{}), elems(interface{}), elems(map[string]interface{}), entries(map[string]*PointData), global(queryer.QueryCalls), all(indexMapValue.indexes), elems(int)
+//@ modifies fresh, entries(map[string]interface{}), elems(interface{}), elems(map[string]interface{}), entries(map[string]*PointData), global(queryer.QueryCalls), global(queryer.LastStatus), all(queryer.MultiOpQueryer.client), all(indexMapValue.indexes), elems(int)
 //@ loop 0 invariant[own] fresh(iMap) && fresh(nillResps) && (base(batchRequest) == 0 || fresh(batchRequest)) && iMap != nil && nillResps != nil
 //@ loop 0 invariant[calls] queryer.QueryCalls == old(queryer.QueryCalls)
 //@ loop 0 invariant[wf] wfIMap(iMap) && len(batchRequest) == len(iMap)
@@ -165,6 +167,7 @@ func PointIndexOK(point string) bool { panic("ghost") }
 
 //@ func copyMap
 //@ props C09
+//@ ensures[errkind] gqlerrors.nonvacuous(res1)
 //@ modifies fresh
 //@ end
 
@@ -298,7 +301,7 @@ func PointIndexOK(point string) bool { panic("ghost") }
 //@ requires wfDE(de)
 //@ ensures[nonnil] err == nil ==> res != nil
 //@ ensures[err-nonempty] err != nil ==> !is(err, gqlerror.List) && (is(err, gqlerrors.ErrorList) ==> len(err.(gqlerrors.ErrorList)) >= 1)
-//@ modifies-assumed fresh, entries(map[string]interface{}), elems(interface{}), elems(map[string]interface{}), entries(map[string]*PointData), global(queryer.QueryCalls), all(indexMapValue.indexes), elems(int)
+//@ modifies-assumed fresh, entries(map[string]interface{}), elems(interface{}), elems(map[string]interface{}), entries(map[string]*PointData), global(queryer.QueryCalls), global(queryer.LastStatus), all(queryer.MultiOpQueryer.client), all(indexMapValue.indexes), elems(int)
 //@ fold 0 invariant[acc] acc != nil
 //@ end
 
@@ -312,8 +315,9 @@ func PointIndexOK(point string) bool { panic("ghost") }
 //@ returns res, err
 //@ requires wfDE(de)
 //@ ensures[nonnil] err == nil ==> res != nil
+//@ ensures[errkind] gqlerrors.nonvacuous(err)
 //@ ensures[one-call] queryer.QueryCalls <= old(queryer.QueryCalls) + 1
-//@ modifies fresh, entries(map[string]interface{}), elems(interface{}), elems(map[string]interface{}), entries(map[string]*PointData), global(queryer.QueryCalls), all(indexMapValue.indexes), elems(int)
+//@ modifies fresh, entries(map[string]interface{}), elems(interface{}), elems(map[string]interface{}), entries(map[string]*PointData), global(queryer.QueryCalls), global(queryer.LastStatus), all(queryer.MultiOpQueryer.client), all(indexMapValue.indexes), elems(int)
 //@ end
 
 //@ func (*DepthExecutor).Execute$3
@@ -329,6 +333,7 @@ func PointIndexOK(point string) bool { panic("ghost") }
 //@ requires de != nil
 //@ requires forall(k, 0, len(queryerResponses), queryerResponses[k] != nil)
 //@ ensures[nonnil] err == nil ==> res != nil
+//@ ensures[errkind] gqlerrors.nonvacuous(err)
 //@ modifies-assumed fresh, entries(map[string]interface{}), elems(interface{}), elems(map[string]interface{})
 //@ fold 0 invariant[acc] acc != nil
 //@ end
@@ -338,6 +343,7 @@ func PointIndexOK(point string) bool { panic("ghost") }
 //@ returns res, err
 //@ requires de != nil && field != nil
 //@ ensures[nonnil] err == nil ==> res != nil
+//@ ensures[errkind] gqlerrors.nonvacuous(err)
 //@ modifies-assumed fresh, entries(map[string]interface{}), elems(interface{}), elems(map[string]interface{})
 //@ end
 
